@@ -53,6 +53,18 @@
 (*                    an error (UCUM codes, calendar units on a Time, sub-  *)
 (*                    day units on a Date and results outside 0001..9999   *)
 (*                    are left to the dedicated check)                     *)
+(*   mathfn      C08  abs ceiling floor truncate round on a logged Integer /  *)
+(*                    Decimal input satisfy FPArith's relations (value,     *)
+(*                    emptiness or an error only where the result does not  *)
+(*                    fit)                                                  *)
+(*   setfn       C10  distinct isDistinct exclude intersect on logged       *)
+(*                    System values whose equalities FPCompare fixes: one   *)
+(*                    representative per class; the kept items in order     *)
+(*                    (what follows them in exclude()'s result is left to   *)
+(*                    the dedicated check: a recorded finding); the         *)
+(*                    duplicate-free common items                           *)
+(*   concat      C07  `&` of two operands that are empty or one logged      *)
+(*                    String is the concatenation, empty read as ''         *)
 (*   convfn      C13  toT() / convertsToT() of a logged System value is    *)
 (*                    what FPConvert's conversion table says (Quantity,    *)
 (*                    ambiguous date texts and the recorded toInteger      *)
@@ -167,7 +179,7 @@ CmpLaw(f, e) ==
        IF (e.ok /\ e.cls \in want) \/ ("X" \in want /\ (~e.ok \/ e.cls = "E")) THEN {} ELSE {<<"cmpval", "C05">>}
   ELSE {}
 
-ArithOp(p) == CASE p = "EvaluateAdd" -> (IF Mutant = "addIsSub" THEN "-" ELSE "+") [] p = "EvaluateSub" -> "-" [] p = "EvaluateMul" -> "*" [] p = "EvaluateDiv" -> "/"
+ArithOp(p) == CASE p = "EvaluateAdd" -> (IF Mutant \in {"addIsSub", "c08twins"} THEN "-" ELSE "+") [] p = "EvaluateSub" -> "-" [] p = "EvaluateMul" -> "*" [] p = "EvaluateDiv" -> "/"
                 [] p = "EvaluateFloorDiv" -> "div" [] p = "EvaluateMod" -> "mod" [] OTHER -> ""
 NumOutcomeOk(e, accepts, mayBeEmpty) ==
   IF ~e.ok THEN FALSE
@@ -233,6 +245,63 @@ StrLaw(f, e) ==
                     bad(StrOut(e) /\ e.outv[1].cp = St!StrReplace(s, f.kids[1].ov[1].cp, f.kids[2].ov[1].cp))
                [] OTHER -> {}
 
+(* ---- abs / ceiling / floor / truncate / round of a logged number (C08) ---- *)
+MathOp(p, nk) ==
+  CASE p = "Abs" /\ nk = 0 -> "abs"  [] p = "Ceiling" /\ nk = 0 -> "ceiling"  [] p = "Floor" /\ nk = 0 -> "floor"
+    [] p = "Truncate" /\ nk = 0 -> "truncate"  [] p = "Round" /\ nk = 0 -> "round"  [] p = "Round" /\ nk = 1 -> "roundp"
+    [] OTHER -> ""
+MathLaw(f, e) ==
+  LET nk == Len(f.kids)
+      op0 == MathOp(f.p, nk)
+      op == IF Mutant \in {"floorIsCeiling", "c08twins"} /\ op0 = "floor" THEN "ceiling" ELSE op0
+  IN IF op = "" \/ ~(Len(f.in) = 1 /\ Valued(f.inv, f.in) /\ f.inv[1].t \in NumT) THEN {}
+     ELSE IF op = "roundp" /\ ~(f.kids[1].ok /\ f.kids[1].hi /\ f.kids[1].iv >= 0 /\ f.kids[1].iv <= 40) THEN {}
+     ELSE LET a == Ar!NumOfItem(f.inv[1])
+              p == IF op = "roundp" THEN f.kids[1].iv ELSE 0
+          IN IF (e.ok /\ NumOutcomeOk(e, [v \in {Ar!NumOfItem(e.outv[1])} |-> Ar!AcceptsValUn(op, a, p, v)], Ar!MayBeEmptyUn(op, a, p)))
+                \/ (~e.ok /\ Ar!MayBeErrUn(op, a, p))
+             THEN {} ELSE {<<"mathfn", "C08">>}
+
+(* ---- distinct / isDistinct / exclude / intersect over logged System values (C10) ---- *)
+SysT == {"b", "i", "d", "s", "date", "dt", "time", "q"}
+AllSys(vs, items) == Valued(vs, items) /\ \A i \in 1..Len(vs) : vs[i].t \in SysT
+EqKnown(a, b) == \A i \in 1..Len(a), j \in 1..Len(b) : Cmp!EqSet(a[i], b[j]) \in {{"T"}, {"F"}}
+IsEq(x, y) == Cmp!EqSet(x, y) = {"T"}
+MemberV(x, d) == \E j \in 1..Len(d) : IsEq(x, d[j])
+RECURSIVE KeepNotIn(_, _, _)
+KeepNotIn(c, d, i) == IF i > Len(c) THEN <<>> ELSE (IF MemberV(c[i], d) THEN <<>> ELSE <<c[i]>>) \o KeepNotIn(c, d, i + 1)
+DupFree(R) == \A i, j \in 1..Len(R) : i # j => ~IsEq(R[i], R[j])
+SetLaw(f, e) ==
+  LET c == f.inv
+      nk == Len(f.kids)
+      bad(cond) == IF cond THEN {} ELSE {<<"setfn", "C10">>}
+      outOk == e.ok /\ AllSys(e.outv, e.out)
+      R == e.outv
+  IN IF f.p \notin {"Distinct", "IsDistinct", "Exclude", "Intersect"} \/ f.in = <<>> \/ ~AllSys(c, f.in) \/ Unspelled(e) THEN {}
+     ELSE IF f.p \in {"Distinct", "IsDistinct"} THEN
+        (IF nk # 0 \/ ~EqKnown(c, c) THEN {}
+         ELSE IF f.p = "IsDistinct" THEN bad(e.ok /\ e.cls = (IF DupFree(c) THEN "T" ELSE "F"))
+         ELSE IF Mutant \in {"distinctKeepsDuplicates", "c10twins"} THEN bad(outOk /\ Len(R) = Len(c))
+         ELSE bad(outOk /\ EqKnown(R, c) /\ EqKnown(R, R) /\ DupFree(R)
+                  /\ (\A j \in 1..Len(R) : MemberV(R[j], c)) /\ (\A q \in 1..Len(c) : MemberV(c[q], R))))
+     ELSE IF ~(nk = 1 /\ f.kids[1].ok /\ AllSys(f.kids[1].ov, f.kids[1].out) /\ f.kids[1].in = f.in) THEN {}
+     ELSE LET d == f.kids[1].ov IN
+          IF ~EqKnown(c, d) \/ ~EqKnown(c, c) THEN {}
+          ELSE IF f.p = "Exclude" THEN
+             (LET want == KeepNotIn(c, d, 1) IN
+              bad(outOk /\ Len(R) >= Len(want) /\ \A i \in 1..Len(want) : Cmp!ItemSame(R[i], want[i])))
+          ELSE bad(outOk /\ EqKnown(R, c) /\ EqKnown(R, d) /\ EqKnown(R, R) /\ DupFree(R)
+                   /\ (\A j \in 1..Len(R) : MemberV(R[j], c) /\ MemberV(R[j], d))
+                   /\ (\A q \in 1..Len(c) : MemberV(c[q], d) => MemberV(c[q], R)))
+
+(* ---- `&`: empty counts as the empty string (C07) ---- *)
+ConcatLaw(f, e) ==
+  LET strOrEmpty(k) == k.ok /\ (k.out = <<>> \/ OneVal(k, {"s"}))
+      cpOf(k) == IF k.out = <<>> THEN (IF Mutant = "concatEmptyIsEmpty" THEN <<0>> ELSE <<>>) ELSE k.ov[1].cp
+  IN IF Len(f.kids) = 2 /\ strOrEmpty(f.kids[1]) /\ strOrEmpty(f.kids[2]) /\ ~Unspelled(e)
+     THEN (IF StrOut(e) /\ e.outv[1].cp = cpOf(f.kids[1]) \o cpOf(f.kids[2]) THEN {} ELSE {<<"concat", "C07">>})
+     ELSE {}
+
 ConvTargetOf(p) ==
   CASE p \in {"ToBoolean", "ConvertsToBoolean"} -> "Boolean"   [] p \in {"ToInteger", "ConvertsToInteger"} -> "Integer"
     [] p \in {"ToDecimal", "ConvertsToDecimal"} -> "Decimal"   [] p \in {"ToString", "ConvertsToString"} -> "String"
@@ -294,7 +363,8 @@ EndLaws(f, e) ==
   \cup (IF f.k = "Index" /\ nk = 1 /\ f.kids[1].ok /\ f.kids[1].hi
            /\ ~(e.ok /\ e.out = (IF f.kids[1].iv >= 0 /\ f.kids[1].iv < n THEN <<f.in[f.kids[1].iv + 1]>> ELSE <<>>))
         THEN {<<"subset", "C10">>} ELSE {})
-  \cup (IF f.k = "Function" THEN FnLaws(f, e) \cup StrLaw(f, e) \cup ConvLaw(f, e) ELSE {})
+  \cup (IF f.k = "Function" THEN FnLaws(f, e) \cup StrLaw(f, e) \cup ConvLaw(f, e) \cup MathLaw(f, e) \cup SetLaw(f, e) ELSE {})
+  \cup (IF f.k = "Concat" THEN ConcatLaw(f, e) ELSE {})
   \cup (IF f.k = "Equality" THEN EqLaw(f, e) ELSE {})
   \cup (IF f.k = "Comparison" THEN CmpLaw(f, e) ELSE {})
   \cup (IF f.k = "Arithmetic" THEN ArithLaw(f, e) \cup TemporalLaw(f, e) ELSE {})
